@@ -28,7 +28,7 @@ RULE = ("cases = (initial hosts-file content, backup present or not, host map / 
         "lines, other ports' markers, stale own markers (also last / preceded by blank lines), non-ASCII white "
         "space, undecodable bytes, 1-200 lines; maps of 0-50 hosts; histories of <= 30 updates followed by restore; "
         "every crash point k of every single-instance case; a refused operation at every index of small cases; "
-        "segment-level and random (thorough: exhaustive) interleavings of two instances; complete helper sessions through the real firewall.main() (fake packet-filter method and stdin: ROUTES, NSLIST, PORTS, GO, HOST lines, then EOF / read error / bad command) with the IPv4 and/or IPv6 teardown raising; a case is non-trivial "
+        "segment-level and random (thorough: exhaustive) interleavings of two instances; complete helper sessions through the real firewall.main() (fake packet-filter method and stdin: ROUTES, NSLIST, PORTS, GO, HOST lines, then EOF / read error / bad command) with the IPv4 and/or IPv6 teardown raising and with single file-system calls (chown, chmod, rename, close, write, open, stat, read of the first or a later HOST) refused; crash-recovery histories (a helper dies between writing its temporary and the rename, optionally the admin edits the file, a new session on the same port publishes fewer hosts and restores); a case is non-trivial "
         "when a line was filtered, a backup made, a fault or crash injected, or two instances overlapped; "
         "distinct = distinct canonical case description")
 MANIFEST = dict(
@@ -105,6 +105,8 @@ class Inst:
         self.idx = 0                 # index of the next operation of this instance
         self.crash_at = None
         self.err_at = ()
+        self.fail_ops = set()        # {(operation name, occurrence)}: refused once with OSError
+        self.op_counts = {}
         self.outcome = None
         # scheduling (interleaved runs only)
         self.ready = threading.Semaphore(0)
@@ -126,6 +128,7 @@ class Sandbox:
         self.default = None
         self.latin = False           # undecodable case: show bytes as latin-1 text
         self.foreign_tmp = []        # rename/move sources that were not beside the hosts file
+        self.fd_names = {}           # descriptors obtained through the wrapped os.open
 
     def __enter__(self):
         import sshuttle.firewall as fw
@@ -263,7 +266,13 @@ class Sandbox:
 
     def call(self, op, fn, okfmt=lambda r: 'ok', faultable=True):
         inst, refused = self.gate(faultable)
+        kind = op.split(' ', 1)[0]
+        inst.op_counts[kind] = inst.op_counts.get(kind, 0) + 1
+        if faultable and (kind, inst.op_counts[kind]) in inst.fail_ops:
+            refused = True
         if refused:
+            if getattr(self, 'in_restore', False):
+                self.refused_in_restore = True
             self.record(inst, op, 'err')
             raise OSError(errno.EIO, 'injected')
         try:
@@ -360,6 +369,20 @@ class _OsProxy:
     def __init__(self, sb):
         self._sb = sb
         self.path = _PathProxy(sb)
+
+    def open(self, p, flags, mode=0o777, **k):
+        # the real file system honours the flags (O_CREAT without O_TRUNC keeps an existing file's content)
+        if not flags & (os.O_WRONLY | os.O_RDWR):
+            return os.open(p, flags, mode, **k)
+        nm = self._sb.name(p)
+        fd = self._sb.call('openw %s' % nm, lambda: os.open(p, flags, mode, **k))
+        self._sb.fd_names[fd] = nm
+        return fd
+
+    def fdopen(self, fd, *a, **k):
+        f = os.fdopen(fd, *a, **k)
+        nm = self._sb.fd_names.pop(fd, None)
+        return f if nm is None else _WFile(self._sb, f, nm)
 
     def stat(self, p, *a, **k):
         return self._sb.call('stat %s' % self._sb.name(p), lambda: os.stat(p, *a, **k),
@@ -909,6 +932,64 @@ def inter_case(ctx, content, pre, specs, sched, label='inter'):
     return case
 
 
+# ------------------------------------------------------------------ crash, then a new session on the same port
+
+def recovery_case(ctx, content, port, hm1, crash_back, hm2, admin=None, admin_edit=False, first_kind='w'):
+    """A helper dies `crash_back` operations before the end of a rewrite (1 = just before the rename), leaving
+    its temporary behind; optionally the admin then edits the hosts file; then a NEW session on the same port
+    publishes `hm2` and restores.  The stale temporary must not leak into the hosts file."""
+    case = Case('recovery')
+    desc = dict(stream='recovery', content=opt(content), port=port, hm1=[[n, i] for n, i in hm1.items()],
+                crash_back=crash_back, hm2=[[n, i] for n, i in hm2.items()], admin=opt(admin),
+                admin_edit=admin_edit, first_kind=first_kind)
+    case.desc = desc
+    with Sandbox(snapshots=False) as sb:
+        setup_fs(sb, content, None, 0o644)
+        if first_kind == 'r':
+            run_single(sb, 'w', dict(hm1), port)          # published completely, the restore is what dies
+        _l, _r, ops, _o = run_single(sb, first_kind, dict(hm1), port)
+        nops = len(ops)
+    with Sandbox() as sb:
+        setup_fs(sb, content, None, 0o644)
+        case.add(fs_line(sb, content, None), 'ok')
+        if first_kind == 'r':
+            line, res, _ops, _out = run_single(sb, 'w', dict(hm1), port)
+            case.add(line, res)
+        k = max(0, nops - crash_back)
+        line, res, _ops, out = run_single(sb, first_kind, dict(hm1), port, crash_at=k)
+        case.add(line, res)
+        stale = sb.raw(sb.tmp(port))
+        if admin_edit:
+            bak = sb.raw(sb.bak)
+            if os.path.exists(sb.hosts):
+                os.unlink(sb.hosts)      # the editor replaces the file: the hard-linked backup keeps the old content
+            sb.put(sb.hosts, admin, 0o644 if admin is not None else None)
+            case.add(fs_line(sb, admin, bak), 'ok')
+            if stale is not None:
+                case.add('tmp %d %s' % (port, hx(stale)), 'ok')
+        before = sb.raw(sb.hosts)
+        ctx.hist('recovery:stale-tmp=%s' % ('none' if stale is None else 'shorter' if len(stale) <= len(before or b'')
+                                            else 'longer-than-hosts'))
+        line, res, _ops, out2 = run_single(sb, 'w', dict(hm2), port)
+        case.add(line, res)
+        after = sb.raw(sb.hosts)
+        if out2 == 'done':
+            exp = trim(expected_after(port, hm2, before))
+            if py_lines(after) != exp:
+                violation(ctx, 'C14:recovery:lines-differ', desc, dict(lines=exp),
+                          dict(lines=py_lines(after), stale_temporary=b2s(stale)),
+                          'a new session after a crash: only its own host lines are added, nothing of the dead '
+                          'session\'s temporary may appear', kind='history')
+        line, res, _ops, out3 = run_single(sb, 'r', dict(hm2), port)
+        case.add(line, res)
+        if hm2 and out3 == 'done':
+            exp = trim([l for l in py_lines(before) if not own(port, l)])
+            if py_lines(sb.raw(sb.hosts)) != exp:
+                violation(ctx, 'C14:recovery:restore-differs', desc, dict(lines=exp),
+                          dict(lines=py_lines(sb.raw(sb.hosts)), stale_temporary=b2s(stale)), kind='history')
+    return case
+
+
 # ------------------------------------------------------------------ complete helper sessions (firewall.main)
 
 class _FakeMethod:
@@ -960,15 +1041,17 @@ class _Stdin:
         return r
 
 
-def helper_case(ctx, content, hosts, with_v4, with_v6, fail, end='eof', exc='fatal', setup_fails=False):
+def helper_case(ctx, content, hosts, with_v4, with_v6, fail, end='eof', exc='fatal', setup_fails=False,
+                fs_fail=()):
     """One complete helper session through the real firewall.main() on the sandbox hosts file.
     hosts: list of (name, ip) HOST lines; fail: families ('4', '6') whose teardown raises;
-    end: 'eof' | 'ioerror' | 'bad-command'."""
+    end: 'eof' | 'ioerror' | 'bad-command'; fs_fail: [(operation name, occurrence)] file-system calls of
+    the session that are refused once with OSError (e.g. ('chown', 1) = the chown of the first HOST)."""
     import io
     import socket
     case = Case('helper')
     desc = dict(stream='helper', content=opt(content), hosts=[list(h) for h in hosts], v4=with_v4, v6=with_v6,
-                fail=sorted(fail), end=end, exc=exc, setup_fails=setup_fails)
+                fail=sorted(fail), end=end, exc=exc, setup_fails=setup_fails, fs_fail=[list(x) for x in fs_fail])
     case.desc = desc
     p6, p4 = (12300 if with_v6 else 0), 12299
     port = p6 or p4
@@ -989,8 +1072,14 @@ def helper_case(ctx, content, hosts, with_v4, with_v6, fail, end='eof', exc='fat
         import sshuttle.helpers as helpers
         setup_fs(sb, content, None, 0o644)
         sb.default = Inst('a', port)
-        saved = dict(setup_daemon=fw.setup_daemon, get_method=fw.get_method,
+        sb.default.fail_ops = {(k, int(n)) for k, n in fs_fail}
+        saved = dict(setup_daemon=fw.setup_daemon, get_method=fw.get_method, restore=fw.restore_etc_hosts,
                      flush=fw.flush_systemd_dns_cache, pid=fw.sshuttle_pid, prefix=helpers.logprefix)
+
+        def in_restore(hm, p, real=fw.restore_etc_hosts):
+            sb.in_restore = True          # a refusal from here on hits the clean-up itself
+            return real(hm, p)
+        fw.restore_etc_hosts = in_restore
         stdout = io.BytesIO()
         fw.setup_daemon = lambda: (_Stdin(data, end == 'ioerror'), stdout)
         fw.get_method = lambda name: method
@@ -1004,19 +1093,26 @@ def helper_case(ctx, content, hosts, with_v4, with_v6, fail, end='eof', exc='fat
         finally:
             fw.setup_daemon = saved['setup_daemon']
             fw.get_method = saved['get_method']
+            fw.restore_etc_hosts = saved['restore']
             fw.flush_systemd_dns_cache = saved['flush']
             fw.sshuttle_pid = saved['pid']
             helpers.logprefix = saved['prefix']
         after = sb.raw(sb.hosts)
         renames = len([o for o in sb.log if o.startswith(('rename', 'move')) and '-> ok' in o])
-    ctx.hist('helper:end=%s,fail=%s' % (end, ''.join(sorted(fail)) or '-'))
+        cleanup_refused = getattr(sb, 'refused_in_restore', False)
+    if cleanup_refused:
+        # the injected refusal hit the clean-up rewrite itself: it cannot succeed, nothing to demand
+        ctx.hist('helper:fault-hit-the-clean-up-itself')
+        return case
+    ctx.hist('helper:end=%s,fail=%s%s' % (end, ''.join(sorted(fail)) or '-',
+                                          ',fs=' + '+'.join(k for k, _n in fs_fail) if fs_fail else ''))
     published = bool(hosts) and not setup_fails
-    tail = '-after-teardown-error' if fail else ''
+    tail = '-after-fs-error' if fs_fail else '-after-teardown-error' if fail else ''
     if published:
         base = [l for l in py_lines(content) if not own(port, l)]
         got = py_lines(after)
         left = [l for l in got if own(port, l)]
-        if renames < len(hosts):
+        if renames < len(hosts) and not fs_fail:
             ctx.corr_break('helper', case=desc, impl='%d rewrites' % renames, model='>= %d' % len(hosts),
                            note='the session never published its HOST lines')
         if left:
@@ -1190,6 +1286,41 @@ def gen_cases(ctx):
         cases.append(helper_case(ctx, content, hosts, with_v4, with_v6, fail,
                                  end=rng.choice(['eof', 'eof', 'ioerror', 'bad-command']),
                                  exc=rng.choice(['fatal', 'oserror', 'runtime'])))
+    # faults on the file-system calls of a whole session (first host and later hosts), transient
+    for kind_ in ('chown', 'chmod', 'rename', 'close', 'write', 'openw', 'stat', 'read'):
+        for occ in (1, 2, 3):
+            cases.append(helper_case(ctx, base_c, two + [('gamma', '10.9.0.3')], True, occ % 2 == 0, set(),
+                                     fs_fail=[(kind_, occ)]))
+    cases.append(helper_case(ctx, base_c, two, True, False, set(), fs_fail=[('rename', 1), ('move', 1)]))
+    cases.append(helper_case(ctx, base_c, [('alpha', '10.9.0.1')], True, False, {'4'}, fs_fail=[('chmod', 1)]))
+    for _ in range(ctx.scale(8, 150)):
+        nh = rng.choice([1, 1, 2, 4])
+        hosts = [(gen_name(rng), gen_ip(rng)) for _ in range(nh)]
+        kind, content = gen_content(rng, 12299, rng.choice(['missing', 'plain', 'nonl', 'blank']))
+        ff = [(rng.choice(['chown', 'chmod', 'rename', 'close', 'write', 'stat']), rng.randrange(1, nh + 1))]
+        if ff[0][0] == 'rename' and rng.random() < 0.5:
+            ff.append(('move', 1))
+        cases.append(helper_case(ctx, content, hosts, True, False, set(), end=rng.choice(['eof', 'bad-command']),
+                                 fs_fail=ff))
+    # a helper dies between writing its temporary and the rename; a new session on the same port follows
+    many = {'host%02d.example.net' % i: '10.8.0.%d' % i for i in range(6)}
+    for cb in (1, 2, 3, 4, 6):
+        cases.append(recovery_case(ctx, b'127.0.0.1 localhost\n', 12300, many, cb, {'only': '10.8.1.1'}))
+        cases.append(recovery_case(ctx, b'127.0.0.1 localhost\n', 12300, many, cb, {}))
+    cases.append(recovery_case(ctx, None, 12300, many, 1, {'a': '1.1.1.1'}))
+    # the restore of a published session dies; the admin then shortens the file; new session, same port
+    cases.append(recovery_case(ctx, b'127.0.0.1 localhost\n10.1.0.1 lab1\n10.1.0.2 lab2 with a long comment # x\n',
+                               12300, {'a': '1.1.1.1'}, 1, {'b': '2.2.2.2'}, admin=b'127.0.0.1 localhost\n',
+                               admin_edit=True, first_kind='r'))
+    for _ in range(ctx.scale(8, 150)):
+        port = rng.choice([10, 12300])
+        kind, content = gen_content(rng, port, rng.choice(['missing', 'plain', 'plain', 'nonl', 'crlf', 'stale-last']))
+        hm1 = gen_map(rng, rng.choice([3, 6, 12]))
+        hm2 = gen_map(rng, rng.choice([0, 1, 2]))
+        edit = rng.random() < 0.3
+        admin = gen_content(rng, port, rng.choice(['empty', 'plain', 'missing']))[1] if edit else None
+        cases.append(recovery_case(ctx, content, port, hm1, rng.randrange(1, 8), hm2, admin=admin, admin_edit=edit,
+                                   first_kind=rng.choice(['w', 'w', 'r'])))
     # two instances overlapping: the two designated races first
     for w in (WITNESS_LOST, WITNESS_RESURRECT):
         cases.append(inter_case(ctx, w['content'], w['pre'], w['specs'], w['sched'], label='inter-witness'))
@@ -1317,7 +1448,12 @@ def replay(ctx, rep):
     elif st == 'helper':
         helper_case(ctx, _unopt(case['content']), [tuple(h) for h in case['hosts']], case['v4'], case['v6'],
                     set(case['fail']), end=case['end'], exc=case.get('exc', 'fatal'),
-                    setup_fails=case.get('setup_fails', False))
+                    setup_fails=case.get('setup_fails', False),
+                    fs_fail=[tuple(x) for x in case.get('fs_fail', [])])
+    elif st == 'recovery':
+        recovery_case(ctx, _unopt(case['content']), case['port'], _hm(case['hm1']), case['crash_back'],
+                      _hm(case['hm2']), _unopt(case.get('admin', 'N')) if case.get('admin_edit') else None,
+                      admin_edit=case.get('admin_edit', False), first_kind=case.get('first_kind', 'w'))
     else:
         return False, 'unknown replay stream %r' % st
     new = ctx.violations[n0:]
